@@ -30,6 +30,9 @@ def run(ctx):
   # is the largest that fits exactly, so every fitting size must be tested (shared with C12)
   from . import c12
   ctx.borrow(c12.rule_ladder, "R-C13-RANK")
+  # "p-values of every test are not systematically small" for good generators: the excursion statistics are only chi-square / normal above 500 cycles
+  ctx.borrow(c12.rule_excursion_gate, "R-C13-GATE")
+  ctx.expect("R-C13-GATE", 1, "500-cycle gate")
   ctx.expect("R-C13-RANK", 3, "loop condition, guard agreement, matrix shape")
   ctx.expect("R-C13-STATE", 7, "seven clauses of Run")
   ctx.expect("R-C13-ENTRY", 5, "TESTS, registry, Failed, two entry points")
